@@ -83,3 +83,132 @@ ASSUMPTIONS = [
     "A-DEEPCOPY / A-PICKLE: deepcopy and pickle rebuild an object created without __init__ from __getstate__/__setstate__, preserving aliasing and sharing only immutables",
     "the slot list of Parameter (_all_slots_, computed by the metaclass at run time) is supplied by the contract; subclasses add their own slots through the same comprehension",
 ]
+
+
+# ---------------------------------------------------------------------------------------------
+# Block contract: the tail of Parameterized.__setstate__ (everything saved is restored)
+# ---------------------------------------------------------------------------------------------
+SETSTATE_REPLAY = '''import sys, os, copy, pickle
+sys.path.insert(0, os.environ.get('PYVC_REPO', '/repo'))
+import param
+bad = []
+NAMES = ['initialized', '_param_watchers', '_dynamic_watchers', '_instance__params', '_parameters_state', 'values', 'refs',
+         'watchers', 'note', '_private_note', 'params']
+class P(param.Parameterized):
+    x = param.Number(1)
+    def __init__(self, **kw):
+        super().__init__(**kw)
+        for i, n in enumerate(NAMES):
+            self.__dict__[n] = ['attr', i]
+import __main__
+__main__.P = P
+p = P(x=2)
+copies = [('deepcopy', copy.deepcopy(p))] + [('pickle protocol %d' % k, pickle.loads(pickle.dumps(p, k))) for k in range(pickle.HIGHEST_PROTOCOL + 1)]
+for how, q in copies:
+    for i, n in enumerate(NAMES):
+        if q.__dict__.get(n) != ['attr', i]:
+            bad.append('%s: ordinary attribute %r is %r on the copy' % (how, n, q.__dict__.get(n, '<missing>')))
+    if q.x != 2:
+        bad.append('%s: x == %r on the copy' % (how, q.x))
+if bad:
+    print('REPRODUCED: C17 an ordinary attribute does not survive the copy:')
+    for b in bad[:8]:
+        print('  ', b)
+    sys.exit(1)
+print('NOT-REPRODUCED'); sys.exit(0)
+'''
+
+
+def setstate_tail_contract():
+    """Tail of `Parameterized.__setstate__` (from `state.pop('param', None)` to the end) on an
+    ARBITRARY state dictionary, for an arbitrary attribute name: every saved attribute other than the
+    accessor entry 'param' is set on the new object with its saved value, and the object ends up
+    initialized."""
+    import ast as _ast
+    import z3
+    from pyvc import spec as S
+    from pyvc import values as vm
+    from pyvc.engine import OutOfReach, Raise
+    from pyvc.loops import LoopSpec
+    from pyvc.values import Conc, Ref, Sym
+    from pyvc.verify import FunctionContract
+    holder = {}
+    QUAL = "Parameterized.__setstate__"
+
+    def configure(I):
+        def setattr_sym(I, st, x, n, v, ctx):
+            st.ghost["set_attr"] = z3.Store(st.ghost["set_attr"], I.term(n), I.term(v))
+            st.ghost["was_set"] = z3.Store(st.ghost["was_set"], I.term(n), True)
+            return [(st, Conc(None))]
+        I.lib["$setattr_symbolic"] = setattr_sym
+
+    def setup(I, st):
+        U = I.U
+        obj = I.alloc_obj(st, "Parameterized", lazy=True, label="self")
+        priv = I.alloc_obj(st, "_InstancePrivate", lazy=True, label="self._param__private")
+        st.heap[obj.oid].fields["_param__private"] = priv
+        state = I.alloc_dict(st, keys=U.fresh_seq("saved_names"), vals=z3.Const("saved_values", z3.ArraySort(vm.V, vm.V)))
+        k = U.fresh("some_attribute")
+        st.pc += [vm.ty(k) == vm.TAG["str"], k != U.lit("param")]
+        holder.update({"k": k, "state": state})
+        st.ghost["set_attr"] = z3.K(vm.V, U.NONE)
+        st.ghost["was_set"] = z3.K(vm.V, False)
+        hs = st.heap[state.oid]
+        holder["keys0"], holder["vals0"] = hs.keys, hs.vals
+        return {"env": {"self": obj, "state": state}, "priv": priv, "symbols": {}}
+
+    def runner(I, st, info, ctx):
+        from contracts.c05 import outcomes
+        module, cname, fd = I.src.locate("%s:%s" % (MOD, QUAL))
+        idx = [i for i, x in enumerate(fd.body) if _ast.unparse(x).startswith("state.pop('param'")]
+        if len(idx) != 1:
+            raise OutOfReach("`state.pop('param', None)` not found in Parameterized.__setstate__")
+        st.env = dict(info["env"])
+        c = dict(ctx)
+        c.update({"module": module, "owner": cname, "qual": QUAL, "fnode": fd, "selfname": "self"})
+        return outcomes(I.exec_block(fd.body[idx[0]:], st, c))
+
+    def inv(I, st, pre):
+        k = holder["k"]
+        return z3.Implies(z3.Contains(pre.seq, z3.Unit(k)),
+                          z3.And(z3.Select(st.ghost["was_set"], k), z3.Select(st.ghost["set_attr"], k) == z3.Select(holder["vals0"], k)))
+
+    def havoc(I, st):
+        st.ghost["set_attr"] = z3.Const("set_attr!%d" % I.new_oid(), z3.ArraySort(vm.V, vm.V))
+        st.ghost["was_set"] = z3.Const("was_set!%d" % I.new_oid(), z3.ArraySort(vm.V, z3.BoolSort()))
+
+    def post(I, info, st, oc):
+        if isinstance(oc, Raise):
+            return [("does-not-raise", z3.BoolVal(False))]
+        k = holder["k"]
+        saved = z3.Contains(holder["keys0"], z3.Unit(k))
+        init = st.heap[info["priv"].oid].fields.get("initialized")
+        goal = z3.Implies(saved, z3.And(z3.Select(st.ghost["was_set"], k), z3.Select(st.ghost["set_attr"], k) == z3.Select(holder["vals0"], k)))
+        out = []
+        rem = st.ghost.get("$dict_removed:%d" % holder["state"].oid)
+        if rem is not None:
+            # membership in a concatenation, for the split made by `state.pop('param')` (two instances
+            # of a sequence-theory theorem, each discharged as its own obligation, then used)
+            pre_, k_, post_ = rem
+            u = z3.Unit(k)
+            l1 = z3.Contains(z3.Concat(pre_, post_), u) == z3.Or(z3.Contains(pre_, u), z3.Contains(post_, u))
+            l2 = z3.Contains(z3.Concat(pre_, z3.Unit(k_), post_), u) == z3.Or(z3.Contains(pre_, u), k_ == k, z3.Contains(post_, u))
+            out += [("seq-lemma: membership in pre ++ post", l1), ("seq-lemma: membership in pre ++ [k] ++ post", l2)]
+            goal = z3.Implies(z3.And(l1, l2), goal)
+        out += [("every saved attribute (other than the accessor entry 'param') is restored with its saved value", goal),
+                ("the restored object is initialized", z3.BoolVal(isinstance(init, Conc) and init.py is True))]
+        return out
+    loops = {(QUAL, "state.items()"): LoopSpec("state.items()", inv=inv, heap=havoc, name="restore-every-attribute")}
+    c = FunctionContract("%s:%s" % (MOD, QUAL), PROP, setup, post, configure=configure, loops=loops,
+                         name="Parameterized.__setstate__[restore loop, arbitrary saved attributes]")
+    c.runner = runner
+    c.static_replay = SETSTATE_REPLAY
+    c.static_witness = "ordinary attributes named like param's own bookkeeping, deepcopy and every pickle protocol"
+    return c
+
+
+_c17_base = contracts
+
+
+def contracts():
+    return _c17_base() + [setstate_tail_contract()]
